@@ -124,6 +124,7 @@ pub fn run(ctx: &Ctx, rec: &mut Rec) {
     });
     // hostile point encodings: both engines must give the same verdict (and the same point)
     rec.declare_form("hostile encodings");
+    rec.declare_form("cofactor clearing");
     for cl in ["coordinate + p", "coordinate = p", "flag bits", "bit flip", "x+1 (off curve / other point)", "random bytes", "truncated", "on curve outside subgroup"] {
         rec.declare_class(&format!("enc:{cl}"));
     }
@@ -179,6 +180,46 @@ pub fn run(ctx: &Ctx, rec: &mut Rec) {
                         cases.push(("on curve outside subgroup", false, Compress::Yes, ser(&pt, Compress::Yes)));
                         cases.push(("on curve outside subgroup", false, Compress::No, ser(&pt, Compress::No)));
                         break;
+                    }
+                }
+            }
+            // cofactor clearing of points outside the subgroup must agree byte for byte
+            {
+                use ark_ec::short_weierstrass::Affine as SW;
+                type RefG1Cfg = <<Refe as Pairing>::G1Affine as AffineRepr>::Config;
+                type RefG2Cfg = <<Refe as Pairing>::G2Affine as AffineRepr>::Config;
+                rec.form("cofactor clearing");
+                let x1 = <Refe as Pairing>::BaseField::rand(&mut rng);
+                let x2 = <<Refe as Pairing>::G2Affine as AffineRepr>::BaseField::rand(&mut rng);
+                let res = guarded(|| -> Result<Vec<(&'static str, Vec<u8>, Vec<u8>)>, String> {
+                    let mut out = Vec::new();
+                    if let Some(pt) = SW::<RefG1Cfg>::get_point_from_x_unchecked(x1, true) {
+                        let ours: <Ours as Pairing>::G1Affine = <<Ours as Pairing>::G1Affine as CanonicalDeserialize>::deserialize_with_mode(&ser(&pt, Compress::No)[..], Compress::No, Validate::No).map_err(|e| format!("{e:?}"))?;
+                        // the reference engine clears with an *effective* cofactor (x - 1), the crate's engine with
+                        // the full cofactor: both are legitimate and differ by a scalar, so only membership of the
+                        // result in the prime-order subgroup (judged by the reference engine) is demanded
+                        let cleared: <Refe as Pairing>::G1Affine = de(&ser(&ours.clear_cofactor(), Compress::No), Compress::No)?;
+                        out.push(("G1 clear_cofactor lands in the subgroup", vec![1], vec![(cleared.is_on_curve() && cleared.is_in_correct_subgroup_assuming_on_curve()) as u8]));
+                        out.push(("G1 mul_by_cofactor", ser(&ours.mul_by_cofactor(), Compress::No), ser(&pt.mul_by_cofactor(), Compress::No)));
+                        out.push(("G1 subgroup check", vec![ours.is_in_correct_subgroup_assuming_on_curve() as u8], vec![pt.is_in_correct_subgroup_assuming_on_curve() as u8]));
+                    }
+                    if let Some(pt) = SW::<RefG2Cfg>::get_point_from_x_unchecked(x2, false) {
+                        let ours: <Ours as Pairing>::G2Affine = <<Ours as Pairing>::G2Affine as CanonicalDeserialize>::deserialize_with_mode(&ser(&pt, Compress::No)[..], Compress::No, Validate::No).map_err(|e| format!("{e:?}"))?;
+                        let cleared: <Refe as Pairing>::G2Affine = de(&ser(&ours.clear_cofactor(), Compress::No), Compress::No)?;
+                        out.push(("G2 clear_cofactor lands in the subgroup", vec![1], vec![(cleared.is_on_curve() && cleared.is_in_correct_subgroup_assuming_on_curve()) as u8]));
+                        out.push(("G2 mul_by_cofactor", ser(&ours.mul_by_cofactor(), Compress::No), ser(&pt.mul_by_cofactor(), Compress::No)));
+                        out.push(("G2 subgroup check", vec![ours.is_in_correct_subgroup_assuming_on_curve() as u8], vec![pt.is_in_correct_subgroup_assuming_on_curve() as u8]));
+                    }
+                    Ok(out)
+                });
+                rec.eval(&("cofactor", ser(&x1, Compress::No)), false);
+                match res {
+                    Err(pn) => rec.violation(format!("{P}:cofactor-clearing:panic"), pn, json!({})),
+                    Ok(Err(e)) => rec.violation(format!("{P}:cofactor-clearing:deserialise"), e, json!({})),
+                    Ok(Ok(out)) => {
+                        for (what, a, bb) in out {
+                            cmp_bytes(rec, what, &a, &bb, json!({"x": hx(&ser(&x1, Compress::No))}));
+                        }
                     }
                 }
             }
